@@ -313,3 +313,10 @@ type EmbHidden struct {
 }
 
 func NewEmbHidden(x int32) EmbHidden { return EmbHidden{hidden{x}, 1} }
+
+// IList: a DECLARED list type with interface elements (it travels as a typed list)
+type IList []interface{}
+type HoldIList struct {
+	L IList
+	P *Small
+}
